@@ -22,6 +22,8 @@ type vfServer struct {
 	addr  string
 	up    bool
 	conns []*vfBackend
+	movedAt   int    // reply index (per connection) that is a MOVED redirection (-1: none)
+	movedTo   string // to this node
 	resetNext bool // the next accepted connection is reset right away (the node crashes while accepting)
 	// native
 	mu   sync.Mutex
@@ -30,7 +32,7 @@ type vfServer struct {
 }
 
 func vfNewServer() *vfServer {
-	s := &vfServer{addr: "10.0.0.7:7000"}
+	s := &vfServer{addr: "10.0.0.7:7000", movedAt: -1}
 	if nd.Symbolic() {
 		nd.Replace("net.DialTimeout", s.dial)
 	} else {
@@ -49,6 +51,7 @@ func (s *vfServer) dial(network, address string, timeout time.Duration) (net.Con
 		return nil, errors.New("vf: connection refused")
 	}
 	b := vfNewBackend()
+	b.movedAt, b.movedTo = s.movedAt, s.movedTo
 	if s.resetNext {
 		s.resetNext = false
 		b.Close()
@@ -88,7 +91,7 @@ func (s *vfServer) setUp(up bool) {
 				s.mu.Unlock()
 				go func() {
 					buf := make([]byte, 4096)
-					got := 0
+					got, replied := 0, 0
 					for {
 						n, err := c.Read(buf)
 						if err != nil {
@@ -97,7 +100,12 @@ func (s *vfServer) setUp(up bool) {
 						got += n
 						for got >= vfReqLen {
 							got -= vfReqLen
-							c.Write([]byte("+OK\r\n"))
+							if replied == s.movedAt {
+								c.Write([]byte("-MOVED 1 " + s.movedTo + "\r\n"))
+							} else {
+								c.Write([]byte("+OK\r\n"))
+							}
+							replied++
 						}
 					}
 				}()
@@ -269,6 +277,39 @@ func VfC07_ImmediateReset() {
 	_, stale := u.loadClients()[srv.addr]
 	nd.Assert(!stale || len(srv.conns) == 1, "no dead connection stays in the table")
 	nd.Cover("healed-after-immediate-reset")
+	close(u.quit)
+}
+
+// VfC02_ReplaceDuringRedirect: the host list is replaced (all backend connections are stopped)
+// while a backend connection's reader is following a redirection to a node it has no connection
+// to yet. For every interleaving: the replacement returns, the request is answered, nobody waits
+// for anybody forever.
+func VfC02_ReplaceDuringRedirect() {
+	nd.ConcreteClock(true)
+	srv := vfNewServer()
+	srv.movedAt, srv.movedTo = 1, "127.0.0.1:1" // reply 0 answers READONLY; nothing listens on the named node
+	srv.setUp(true)
+	u, _ := vfNewUpstream(nil)
+	req := newSimpleRequest(newStringArray("ping"))
+	nd.PanicLabel("replace-during-redirect")
+	u.MakeRequestToHost(srv.addr, req)
+	replaced := false
+	go func() {
+		u.OnHostReplace([]*host.Host{hostNew(srv.addr)})
+		replaced = true
+	}()
+	nd.Quiesce()
+	nd.Assert(replaced, "replacing the host list returns while a redirection is being followed (no lock is held while waiting for a backend connection to stop)")
+	nd.Assert(vfDone(req.done), "the redirected request is answered")
+	nd.Cover("replaced")
+	if vfDone(req.done) && req.Response().Type == Error && !vfHasPrefix(req.Response().Text, backendExited) {
+		nd.Cover("redirection-followed") // answered with the connect error of the named node
+	}
+	later := newSimpleRequest(newStringArray("ping"))
+	srv.movedAt = -1
+	u.MakeRequestToHost(srv.addr, later)
+	nd.Quiesce()
+	nd.Assert(vfDone(later.done), "a later request is answered")
 	close(u.quit)
 }
 
